@@ -328,8 +328,11 @@ def check_unimodular_callers(facts, rep):
             continue
         rep.saw(b)
         seen = set()
-        for p in SymEx(b, havoc_loops=True).run():
+        from symex import private_helper
+        for p in SymEx(b, havoc_loops=True, inline=private_helper(exclude=('left_elementary', 'right_elementary', 'gcdx') + tuple(WRAPPERS['yui_matrix::dense::snf::SnfCalc']))).run():
             for e in p.calls():
+                if e.inlined:
+                    continue
                 m = e.name.split('::')[-1]
                 if not (e.name.endswith('SnfCalc::<R>::left_elementary') or e.name.endswith('SnfCalc::<R>::right_elementary')):
                     continue
@@ -342,6 +345,8 @@ def check_unimodular_callers(facts, rep):
                 why = unimodular(blk)
                 if why:
                     rep.ok('E6.M4-unimodular-block', inst, why)
+                elif not _bezout_vocabulary(blk):
+                    rep.indet('E6.M4: %s passes a block outside the recognised fragment to %s: %s' % (b.defp, m, sk(blk)[:200]))
                 else:
                     rep.violation('E6.M4-unimodular-block', inst,
                                   '%s passes %s to %s, which is not one of the Bezout shapes with determinant 1 '
@@ -366,6 +371,24 @@ def _quot(t):
         if g and g[0] == 0:
             return strip(t[2][0]), g[3]
     return None
+
+
+def _bezout_vocabulary(blk):
+    """every entry of the block is built from gcdx parts, exact quotients, one / zero, negation and products of those:
+    only then is "not one of the Bezout shapes" a statement about the block and not about the reader"""
+    if blk[0] != 'agg' or blk[1] != 'array' or len(blk[2]) != 4:
+        return False
+
+    def known(x):
+        x = strip(x)
+        if _gcdx_parts(x) or _quot(x):
+            return True
+        if x[0] == 'call' and (x[1].endswith('One::one') or x[1].endswith('Zero::zero')) and not x[2]:
+            return True
+        if x[0] == 'call' and (x[1].endswith('ops::Neg::neg') or x[1].endswith('ops::Mul::mul')):
+            return all(known(y) for y in x[2])
+        return False
+    return all(known(x) for x in blk[2])
 
 
 def unimodular(blk):
